@@ -1,16 +1,16 @@
 (* Top level consequences of scan_run_safe: the scan neither faults nor runs
    out of fuel; the tokens it emits lie inside the source, in order, without
    overlap. *)
-From Verif Require Import Bytes Utf8 Facts_lexer LexBase LexCodeM LexerM LexBase_proofs LexCode_proofs Lexer_proofs.
+From Verif Require Import Bytes Utf8 Facts_lexer LexBase LexCodeM LexerM LexBase_proofs LexTile_proofs LexCode_proofs Lexer_proofs CutSpec.
 Open Scope N_scope.
 
 Lemma scan_done U noshow fmt text :
   exists toks e l, scan_template U noshow fmt text = Done toks e /\ toks = rev (l_out l) /\ INV text l
-                   /\ (e = None \/ e = Some l).
+                   /\ ((e = None /\ out_block l /\ len l = 0) \/ e = Some l).
 Proof.
   pose proof (scan_run_safe U noshow text fmt) as H. unfold scan_template.
   destruct (scan_run U noshow fmt text) as [l|l| |]; simpl in H; try contradiction.
-  - exists (rev (l_out l)), None, l. auto.
+  - destruct H as [[Hi Hob] Hl]. exists (rev (l_out l)), None, l. auto 10.
   - exists (rev (l_out l)), (Some l), l. auto.
 Qed.
 
@@ -74,7 +74,7 @@ Qed.
 Theorem token_offsets U noshow fmt text toks e :
   scan_template U noshow fmt text = Done toks e -> forall t, In t toks -> tok_in (nlen text) t.
 Proof.
-  intros H t Ht. destruct (scan_done U noshow fmt text) as (toks' & e' & l & H' & -> & [Hw Ho] & _).
+  intros H t Ht. destruct (scan_done U noshow fmt text) as (toks' & e' & l & H' & -> & [Hw [Ho _]] & _).
   rewrite H in H'. injection H' as -> _. apply in_rev in Ht.
   pose proof (outs_ok_in _ _ Ho t Ht) as Hin. pose proof (wf_len _ _ Hw).
   unfold tok_in in *. destruct (t_len t =? 0); lia.
@@ -83,7 +83,7 @@ Qed.
 Theorem tokens_in_order U noshow fmt text toks e :
   scan_template U noshow fmt text = Done toks e -> toks_sorted 0 toks.
 Proof.
-  intros H. destruct (scan_done U noshow fmt text) as (toks' & e' & l & H' & -> & [Hw Ho] & _).
+  intros H. destruct (scan_done U noshow fmt text) as (toks' & e' & l & H' & -> & [Hw [Ho _]] & _).
   rewrite H in H'. injection H' as -> _. apply outs_ok_sorted in Ho. apply Ho.
 Qed.
 
@@ -91,7 +91,34 @@ Qed.
 Theorem error_offset U noshow fmt text toks l :
   scan_template U noshow fmt text = Done toks (Some l) -> l_base l <= nlen text.
 Proof.
-  intros H. destruct (scan_done U noshow fmt text) as (toks' & e' & l' & H' & _ & [Hw Ho] & [He|He]).
+  intros H. destruct (scan_done U noshow fmt text) as (toks' & e' & l' & H' & _ & [Hw Ho] & [[He _]|He]).
   - rewrite H in H'. congruence.
   - rewrite H in H'. assert (l = l') by congruence. subst. pose proof (wf_len _ _ Hw). lia.
+Qed.
+
+(* ---- text_partition ---- *)
+Lemma fold_tstep_none toks : fold_left tstep toks None = None.
+Proof. induction toks; simpl; auto. Qed.
+
+Lemma tiles_fold toks : forall pos inb,
+  tiles pos inb toks = match fold_left tstep toks (Some (pos, inb)) with Some (p, false) => Some p | _ => None end.
+Proof.
+  induction toks as [|t r IH]; intros pos inb; simpl; [destruct inb; reflexivity|].
+  destruct (t_len t =? 0); [apply IH|].
+  destruct inb.
+  - destruct (is_close (t_typ t)); apply IH.
+  - destruct (is_open (t_typ t)); (destruct (t_start t =? pos); [apply IH|rewrite fold_tstep_none; reflexivity]).
+Qed.
+
+Theorem text_partition_holds U noshow fmt text toks :
+  scan_template U noshow fmt text = Done toks None -> tiles 0 false toks = Some (nlen text).
+Proof.
+  intros H. destruct (scan_done U noshow fmt text) as (toks' & e' & l & H' & -> & Hi & [(He & [q Hq] & Hl)|He]).
+  2:{ rewrite H in H'. congruence. }
+  rewrite H in H'. injection H' as -> _.
+  rewrite tiles_fold. unfold tfoldr in Hq. rewrite <- fold_left_rev_right, rev_involutive. 
+  change (fold_right (fun (y : token) (x : option (N * bool)) => tstep x y) (Some (0, false)) (l_out l)) with (tfoldr (l_out l)).
+  unfold tfoldr. rewrite Hq.
+  destruct Hi as (Hw & _ & (q0 & inb & Hf & Hqb)). unfold tfoldr in Hf. rewrite Hq in Hf. injection Hf as <- <-.
+  rewrite (Hqb eq_refl). pose proof (wf_len _ _ Hw). f_equal. lia.
 Qed.
